@@ -536,6 +536,11 @@ class DataFileManager:
             if f.get("type") in ("int", "long", "date", "time", "timestamp")
         }
         float32 = {str(f["name"]) for f in iceberg_schema.fields if f.get("type") == "float"}
+        # A time column stores microseconds since midnight; pyarrow takes any
+        # int64 and reads it back modulo one day (-1 became 23:59:59.999999,
+        # 86400000000 became 00:00:00) - silently altered as well.
+        time_of_day = {str(f["name"]) for f in iceberg_schema.fields if f.get("type") == "time"}
+        micros_per_day = 86_400_000_000
 
         for i, record in enumerate(records):
             unknown = {str(k) for k in record.keys()} - allowed
@@ -555,6 +560,17 @@ class DataFileManager:
                     raise ValueError(
                         f"Record {i}: value {value!r} for field '{name}' is not integral; "
                         f"refusing to silently truncate it"
+                    )
+            for name in time_of_day:
+                value = record.get(name)
+                if (
+                    isinstance(value, (int, float))
+                    and not isinstance(value, bool)
+                    and not 0 <= value < micros_per_day
+                ):
+                    raise ValueError(
+                        f"Record {i}: value {value!r} for field '{name}' is outside the "
+                        f"microseconds of one day; refusing to silently wrap it"
                     )
             for name in float32:
                 value = record.get(name)
